@@ -190,7 +190,27 @@ pub fn list_segment(rng: &mut Rng, log: &mut Log, len: usize) {
         } else if r < 82 {
             g.clear();
             (json!({"op":"clear"}), rs("ok"))
-        } else if r < 86 {
+        } else if r < 84 {
+            // add_node_from_edges: successors among the existing nodes or the new node itself, parallel targets allowed
+            let k = rng.below(4);
+            let edges: Vec<(usize, i32)> = (0..k).map(|_| (rng.below(n + 1), next())).collect();
+            let e = json!({"op":"add_node_from_edges","edges":edges.iter().map(|x| json!([x.0, x.1])).collect::<Vec<_>>()});
+            log.about_to(&e);
+            (e, pan(guard(|| ri(g.add_node_from_edges(edges.iter().map(|&(t, w)| (t as u32, w))) as usize))))
+        } else if r < 86 && n > 0 {
+            // DataMapMut::edge_weight_mut on an edge index (present or one past the row)
+            use petgraph::data::DataMapMut;
+            let a = rng.below(n);
+            let row: Vec<_> = g.edge_indices_from(a as u32).collect();
+            let rank = rng.below(row.len() + 1);
+            let w = next();
+            let e = json!({"op":"list_set_edge_weight","a":a,"rank":rank,"w":w});
+            log.about_to(&e);
+            let ret = if rank < row.len() {
+                pan(guard(|| match g.edge_weight_mut(row[rank]) { Some(x) => { let o = *x; *x = w; rint(o as i64) } None => rnone() }))
+            } else { rnone() };
+            (e, ret)
+        } else if r < 88 {
             g = g.clone();
             (json!({"op":"noeffect","which":"clone"}), rs("ok"))
         } else {
@@ -497,6 +517,20 @@ pub fn matrix_segment<Ty: EdgeType + 'static, Null: Nullable<Wrapped = i32> + 's
         } else if r < 825 {
             g.clear();
             (json!({"op":"clear"}), rs("ok"))
+        } else if r < 832 {
+            // edge_weight_mut (panics when there is no such edge) / get_edge_weight_mut (None)
+            let (a, b) = { let es: Vec<(usize, usize)> = g.edge_references().map(|e| (e.source().index(), e.target().index())).collect();
+                           if !es.is_empty() && rng.chance(3, 4) { es[rng.below(es.len())] } else { (pick(rng), pick(rng)) } };
+            let w = next();
+            let via = *rng.pick(&["mx_edge_weight_mut", "get_edge_weight_mut"]);
+            let e = json!({"op":"set_edge_weight","a":a,"b":b,"w":w,"via":via});
+            log.about_to(&e);
+            let ret = if via == "mx_edge_weight_mut" {
+                pan(guard(|| { let x = g.edge_weight_mut(ni(a), ni(b)); let o = *x; *x = w; rint(o as i64) }))
+            } else {
+                pan(guard(|| match g.get_edge_weight_mut(ni(a), ni(b)) { Some(x) => { let o = *x; *x = w; rint(o as i64) } None => rnone() }))
+            };
+            (e, ret)
         } else if r < 840 && live.len() == nb && live.len() >= 2 {
             // extend_with_edges on a hole-free graph, existing endpoints, absent pairs (add_edge panics on a present one)
             let mut edges: Vec<(usize, usize, i32)> = vec![];
